@@ -11,8 +11,47 @@ def _cls(r):
     return "desc/" + str(r.get("kind"))
 
 
+def _judged(r):
+    """The trace specification judges a record's answer only if the tables involved are functions (AllInjective, InjectiveCol).  This is a
+    sufficient condition for that, used ONLY to choose which records the binding self-test corrupts: in every column every class name occurs
+    once, and inside every class every member name of the from column occurs once."""
+    M = r.get("M") or {}
+    classes = list((M.get("kids") or {}).values()) if isinstance(M.get("kids"), dict) else []
+    n = len(M.get("ns") or [])
+    for col in range(n):
+        names = [c["names"][col] for c in classes if c["names"][col] != ""]
+        if len(set(names)) != len(names):
+            return False
+    f = r.get("f", 1) - 1
+    for c in classes:
+        kids = list(c["kids"].values()) if isinstance(c.get("kids"), dict) else []
+        for kind in ("f", "m"):
+            names = [k["names"][f] for k in kids if k["kind"] == kind and k["names"][f] != ""]
+            if len(set(names)) != len(names):
+                return False
+    return True
+
+
+def _corrupt(recs, seed):
+    """A judged record gets the answer of another record of the same operation whose answer differs."""
+    import random
+    from vlib import deq
+    rnd = random.Random(seed)
+    cand = [r for r in recs if "got" in r]
+    judged = [r for r in cand if _judged(r)]
+    out = []
+    for _ in range(min(40, len(judged))):
+        a, b = rnd.choice(judged), rnd.choice(cand)
+        if a.get("op") == b.get("op") and not deq(a["got"].get("ans", a["got"]), b["got"].get("ans", b["got"])):
+            c = dict(a)
+            c["got"] = b["got"]
+            out.append(c)
+    return out
+
+
 P = {
     "s2i_rev": True,
+    "corrupt": _corrupt,
     "dir": "quill",
     "mc": [{"module": "MC_Remapper", "cfg": "MC_Remapper.cfg"}],
     "trace": {"module": "Trace_Remapper", "cfg": "Trace_Remapper.cfg"},
